@@ -14,32 +14,32 @@ import (
 
 // E1Spec is one bounded exploration: all histories over Alphabet up to Depth (state-merged), starting after Setup.
 type E1Spec struct {
-	Name     string
-	Cfg      rig.Config
-	Setup    []ops.Op
-	Alphabet []ops.Op
-	Depth    int
-	Oracles  []string
-	AllJ     bool
-	NoMerge  bool
-	Level    string
-	HInit    string
-	HFlags   int
+	Name        string
+	Cfg         rig.Config
+	Setup       []ops.Op
+	Alphabet    []ops.Op
+	Depth       int
+	Oracles     []string
+	AllJ        bool
+	NoMerge     bool
+	Level       string
+	HInit       string
+	HFlags      int
 	AbsentIndex bool
-	Foreign  *ForeignSpec
-	TornBytes int
+	Foreign     *ForeignSpec
+	TornBytes   int
 }
 
 type E1Stats struct {
-	States      int
-	Transitions int
-	Pruned      int
-	MaxDepth    int // last complete layer
-	Exhaustive  bool
-	Outcomes    map[string]int
-	Harness     []string
+	States       int
+	Transitions  int
+	Pruned       int
+	MaxDepth     int // last complete layer
+	Exhaustive   bool
+	Outcomes     map[string]int
+	Harness      []string
 	Inconclusive int
-	Reps        [][]ops.Op // one representative history per expanded state (including the initial state)
+	Reps         [][]ops.Op // one representative history per expanded state (including the initial state)
 }
 
 // ExploreE1 runs the breadth-first search. deadline.IsZero() = no budget.
@@ -175,4 +175,3 @@ func errClass2(outcome string) string {
 	}
 	return "ok"
 }
-
